@@ -327,6 +327,52 @@ def depth_scenario():
     if len(pool.CALL_LOG) != depth + 1:
       mism.append(({'clause': 'depth', 'depth': depth, 'observed': 'calls'},
                    f'{len(pool.CALL_LOG)} invocations for a chain of {depth + 1}'))
+  # Buildables built before a branch that exhausts the recursion budget: whether the build then fails or
+  # succeeds, nobody is invoked twice within the one fdl.build
+  for depth in (150, 260, 400, 700):
+    early = [fdl.Config(H.g4, s1=k) for k in range(3)]
+    chain = fdl.Config(H.f1, s1=1)
+    for _ in range(depth):
+      chain = fdl.Config(H.f1, s1=chain)
+    root = fdl.Config(H.f1, s1=early, s2=[early[0]], s3=chain)
+    pool.CALL_LOG.clear()
+    try:
+      fdl.build(root)
+      out = 'ok'
+    except RecursionError:
+      out = 'RecursionError'
+    except Exception as e:  # pylint: disable=broad-except
+      out = type(e).__name__
+    seen = {}
+    for i in pool.CALL_LOG:
+      key = (i.fn_id, json.dumps(pool.proj_val(i.args.get('s1')) if not isinstance(i.args.get('s1'), pool.Inst) else 'inst'))
+      seen[key] = seen.get(key, 0) + 1
+    twice = {k: n for k, n in seen.items() if k[0] == 4 and n > 1}
+    if twice or (out == 'ok' and len(pool.CALL_LOG) != depth + 5):
+      mism.append(({'clause': 'depth-invoked-twice', 'depth': depth, 'observed': out},
+                   f'build {out}: {len(pool.CALL_LOG)} invocations for {depth + 5} Buildables; repeated: {twice}'))
+  return mism
+
+
+def partial_scenario():
+  """Partial instances are Buildables too: one result per instance, nothing shared between builds."""
+  mism = []
+  for nargs in (0, 1):
+    kw = {'s1': 5} if nargs else {}
+    p1, p2 = fdl.Partial(H.g4, **kw), fdl.Partial(H.g4, **kw)
+    root = fdl.Config(H.f1, s1=[p1, p1, p2], s2=p2)
+    a1 = pool.inst_of(fdl.build(root)).args
+    a2 = pool.inst_of(fdl.build(root)).args
+    l = a1['s1']
+    probs = []
+    if l[0] is not l[1] or a1['s2'] is not l[2]:
+      probs.append('references to one Partial received different objects')
+    if l[0] is l[2]:
+      probs.append('two distinct Partial instances received the same object')
+    if any(x is y for x in l for y in a2['s1']):
+      probs.append('two separate builds share a built partial')
+    if probs:
+      mism.append(({'clause': 'partial-instances', 'bound_arguments': nargs}, '; '.join(probs)))
   return mism
 
 
@@ -384,7 +430,7 @@ def main():
         if root_deps:
           raise common.MachineryError('Trace_C02 accepted a reversed invocation order')
     accepted = validate_random(v, recs, os.path.join(wd, 'c2s'))
-    for f, msg in temporaries_scenario() + depth_scenario():
+    for f, msg in temporaries_scenario() + depth_scenario() + partial_scenario():
       v.mismatch(f, {'message': msg})
   v.coverage.update({
       'states': r1.distinct + r2.distinct, 'transitions': r1.generated + r2.generated,
